@@ -9,6 +9,7 @@
  *                          rest <value>                                            |  resterr
  *   rtl <fn> <val>*      like rt, the value being the result of calling obj-><fn>(vals) (values built by LPC code)
  *   rv <hex>             restore_variable(text):  rest <value> | resterr
+ *   rx <val> <hex>       the same; <hex> is a valid save text of <val> made by the generator (the oracle expects <val>)
  *   set <i> <a> <b> <s> <c>   obj->setv(...)  (vi, va, vb, vs+vis (static), vc; vo = the object itself)
  *   so <zeros>           save_object("/c16/data/sav", zeros):   so <ret> / file <hex, canonical> (or file none)
  *   wf <hex>             write the save file directly
@@ -818,10 +819,10 @@ static int c16_cmd (char *line)
       do_roundtrip (&r);
       return 1;
     }
-  if (!strcmp (tok[0], "rv") && (n == 2 || n == 1))
+  if ((!strcmp (tok[0], "rv") && (n == 2 || n == 1)) || (!strcmp (tok[0], "rx") && n == 3))
     {
       ensure_obj ();
-      char *h = n == 2 ? tok[1] : (char *) "";
+      char *h = tok[0][1] == 'x' ? tok[2] : n == 2 ? tok[1] : (char *) "";
       size_t len = strlen (h) / 2;
       char *t = (char *) malloc (len + 1);
       for (size_t i = 0; i < len; i++)
